@@ -25,4 +25,18 @@ LEVEL["C16"] = {
     "design_ref": "DESIGN.md 4/C16", "note": _NOTE, "technique": "Lean 4 proof (data-structure invariant by induction over registrations + longest-match characterisation) + correspondence check",
 }
 
+_TOKNOTE = _NOTE + " Theorems cover the generic, expression and csv tokenizers (csv for every separator/quote configuration); the mustache tokenizer's override is modelled and checked by correspondence + oracle only."
+LEVEL["C04"] = {
+    "text": "Lean theorem C04_lossless for every input: token values concatenate to the input, only the final Eof is empty — proved from per-state segment lemmas (every state, incl. fall-back paths and the EOF slot, moves exactly a contiguous slice) and a main-loop induction. Tied to the Go tokenizers by exhaustive class-alphabet strings, lexeme soup and random inputs, compared token by token with the compiled model and with the concatenation oracle.",
+    "design_ref": "DESIGN.md 4/C04", "note": _TOKNOTE, "technique": "Lean 4 proof (loop invariants / segment lemmas, induction over the input) + correspondence check",
+}
+LEVEL["C12"] = {
+    "text": "Lean theorem C12_positions for every input and all 128 option sets: each token reports the forward-scan line/column of the first character of a whole raw token, the Eof token one column past the end; built on C11 and the C15 factorisation. Tied to the Go tokenizers by exhaustive multi-line small-scope strings and random inputs x option sets with a position oracle.",
+    "design_ref": "DESIGN.md 4/C12", "note": _TOKNOTE, "technique": "Lean 4 proof (position lemmas per state + main-loop factorisation) + correspondence check",
+}
+LEVEL["C15"] = {
+    "text": "Lean theorem C15_options_factor: for all 2^7 option sets and every input the token stream is the option-free segmentation with whole tokens dropped or rewritten (segmentation independent of options), with the per-option postconditions as corollaries. Tied to the Go tokenizers by all strings up to a small length x 128 option sets x 4 tokenizers and random/lexeme-soup inputs, with an oracle that post-processes the implementation's own option-free stream.",
+    "design_ref": "DESIGN.md 4/C15", "note": _TOKNOTE, "technique": "Lean 4 proof (factorisation through a raw-segmentation spec, fuel-independence, induction on remaining input) + correspondence check",
+}
+
 NOT_APPLICABLE = {}
